@@ -258,3 +258,83 @@ func progFeatures(p gen.ProgramV) map[string]bool {
 	}
 	return f
 }
+
+// rawCollisions evaluates the program on the array store (which compares atoms
+// structurally) and reports whether the resulting facts, exactly as stored,
+// contain two distinct atoms with equal Atom.Hash().
+func rawCollisions(pi *analysis.ProgramInfo, pre []ast.Atom) bool {
+	store := newEngineStore("multiarray", pre)
+	if err := engine.EvalProgram(pi, store); err != nil {
+		return false
+	}
+	raw := canon.Set{}
+	for _, a := range allFacts(store) {
+		raw.Add(a)
+	}
+	return hashCollisions(raw)
+}
+
+// permCollisions reports whether some ordering of the set-valued list columns
+// (collect_distinct results, whose order is unspecified) makes a fact collide in
+// Atom.Hash() with a different fact of the same predicate.
+func permCollisions(set canon.Set, cols map[string][]int) bool {
+	if len(cols) == 0 {
+		return false
+	}
+	byPred := map[string][]ast.Atom{}
+	for _, a := range set {
+		k := fmt.Sprintf("%s/%d", a.Predicate.Symbol, a.Predicate.Arity)
+		byPred[k] = append(byPred[k], a)
+	}
+	for pk, cs := range cols {
+		facts := byPred[pk]
+		hashes := map[uint64]string{}
+		for _, a := range facts {
+			hashes[a.Hash()] = canon.Atom(normSetCols(canon.Set{"x": a}, cols)[firstKey(normSetCols(canon.Set{"x": a}, cols))])
+		}
+		for _, a := range facts {
+			self := canon.Atom(normSetCols(canon.Set{"x": a}, cols)[firstKey(normSetCols(canon.Set{"x": a}, cols))])
+			for _, ci := range cs {
+				c, ok := a.Args[ci].(ast.Constant)
+				if !ok || c.Type != ast.ListShape {
+					continue
+				}
+				var elems []ast.Constant
+				c.ListValues(func(e ast.Constant) error { elems = append(elems, e); return nil }, func() error { return nil })
+				if len(elems) < 2 || len(elems) > 6 {
+					continue
+				}
+				var rec func(k int) bool
+				rec = func(k int) bool {
+					if k == len(elems) {
+						b := ast.Atom{Predicate: a.Predicate, Args: append([]ast.BaseTerm{}, a.Args...)}
+						b.Args[ci] = ast.List(append([]ast.Constant{}, elems...))
+						if other, ok := hashes[b.Hash()]; ok && other != self {
+							return true
+						}
+						return false
+					}
+					for i := k; i < len(elems); i++ {
+						elems[k], elems[i] = elems[i], elems[k]
+						if rec(k + 1) {
+							return true
+						}
+						elems[k], elems[i] = elems[i], elems[k]
+					}
+					return false
+				}
+				if rec(0) {
+					return true
+				}
+			}
+		}
+	}
+	return false
+}
+
+func firstKey(s canon.Set) string {
+	for k := range s {
+		return k
+	}
+	return ""
+}
